@@ -30,7 +30,7 @@ RULE = ("cases = (classifier, number of classes, label type, intercept, storage,
 SLACK = {"proba_sum": 1e-12, "cert_rel": 1e-6}
 ASSUMPTIONS = ["binary convention of the estimators: classes_ sorted, larger label is the positive class"]
 FLOOR = {"quick": 100, "thorough": 1500}
-REPS = {"quick": 10, "thorough": 140}
+REPS = {"quick": 45, "thorough": 500}
 CLFS = ["SparseLogisticRegression", "LinearSVC", "GLE-Logistic", "GLE-QuadraticSVC"]
 
 
